@@ -417,7 +417,7 @@ _P("C15", "proof",
    "m_ctx() hides the context from a deny-ctx module exactly while one of its callbacks runs; callbacks are entered with curr_mod == their module and the previous value is restored on exit "
    "(nesting); guard units: deny-pub / deny-sub calls, publishing on the reserved prefix, context calls while hidden all fail without effect; mod_deregister refuses a persistent module while "
    "its context loops.",
-   not_decided=["name uniqueness / allow-replace path of m_mod_register (not under contract this round)"])
+   not_decided=["what the replaced module's deregistration does to the context when it was the last module (auto-release) is not re-checked inside m_mod_register"])
 _P("C16", "other",
    "m_mod_stash() is enforced against its contract (RUNNING only, never HIGH priority -- for every flag word --, exactly one reference and one append at the tail); reset_module() discards the "
    "stash on stop; m_mod_unstash() is a BOUNDED stand-in: real evts.c + real queue.c, every stash of <= K events and every n: exactly min(n, stashed) oldest events, in order, one "
@@ -454,3 +454,24 @@ U("ctx.loop_stop", src="units/ctx_unit.c", harness="h_loop_stop", enforce="loop_
   props=["C19", "C03", "C02", "C07", "C04"], contract_files=LOOPC, native=False, timeout=300, min_obligations=20)
 U("ctx.process_tick", src="units/ctx_unit.c", harness="h_process_tick", enforce="process_tick", defines=["V_TICK_UNIT"], logctx="CORE",
   replace=["poll_consume_tmr", "tell_system_pubsub_msg"], props=["C19", "C04"], contract_files=LOOPC, native=False, timeout=300, min_obligations=10)
+U("mod.register", src="units/mod_unit.c", harness="h_mod_register", enforce="m_mod_register", defines=["V_REG_UNIT"], logctx="CORE",
+  replace=["str_not_empty", "m_ctx", "m_map_get", "mod_deregister", "m_mem_new", "m_mem_ref", "m_mem_unref", "init_src", "m_stack_new", "m_queue_new", "m_list_new", "m_map_put", "fetch_ms"],
+  props=["C15", "C07", "C04"], contract_files=ABS + ["contracts/cb.contracts.h", "contracts/reg.contracts.h"], native=False, timeout=200, min_obligations=20,
+  unwindset={"m_mod_register_wrapped_for_contract_checking.0": 9})
+U("ctx.set_tick", src="units/ctx_unit.c", harness="h_set_tick", enforce="m_ctx_set_tick", defines=["V_SETTICK_UNIT"], logctx="CORE",
+  replace=["m_ctx", "deregister_ctx_src", "register_ctx_src"], props=["C19", "C04"], contract_files=ABS + ["contracts/reg.contracts.h"], native=False, timeout=200, min_obligations=10)
+U("src.ctx_dereg", src="units/poll_unit.c", harness="h_deregister_ctx_src", enforce="deregister_ctx_src", defines=["V_CTXSRC_UNIT"],
+  replace=["poll_set_new_evt", "m_mem_unrefp"], logctx="CORE", props=["C20", "C04"], contract_files=POLLC, native=False, timeout=200, min_obligations=10)
+SRCC = ABS + ["contracts/src.contracts.h"]
+U("src.register", src="units/src_unit.c", harness="h_register_mod_src", enforce="register_mod_src", defines=["V_SRCREG_UNIT"], logctx="CORE",
+  replace=["m_mod_is", "m_ctx", "fetch_ms", "create_src", "m_bst_insert", "poll_set_new_evt", "start_task", "m_mem_unref"],
+  props=["C09", "C13", "C18", "C01", "C04"], contract_files=SRCC, native=False, timeout=250, min_obligations=20)
+U("src.deregister", src="units/src_unit.c", harness="h_deregister_mod_src", enforce="deregister_mod_src", defines=["V_SRCDEREG_UNIT"], logctx="CORE",
+  replace=["m_mod_is", "m_ctx", "fetch_ms", "m_bst_remove"], props=["C09", "C18", "C04"], contract_files=SRCC, native=False, timeout=250, min_obligations=20)
+U("src.create", src="units/src_unit.c", harness="h_create_src", enforce="create_src", defines=["V_CREATESRC_UNIT"], logctx="CORE",
+  replace=["m_mem_new", "v_dup", "mem_strdup", "m_mem_unrefp"], props=["C09", "C13", "C03", "C20", "C04"], contract_files=SRCC, native=False, timeout=250, min_obligations=20)
+U("src.len", src="units/src_unit.c", harness="h_src_len", plain=True, logctx="CORE", bounded=True, defines=["V_SRCLEN_UNIT"],
+  bound_note="real m_mod_src_len() over executable stub iterators (each element once, in order); every combination of <= 2 sources per kind (8 kinds) and internal flags; loops unwound with unwinding assertions",
+  unwind=10, props=["C09", "C04"], contract_files=[], native=False, timeout=300, min_obligations=5)
+U("ps.pill_real", src="units/ps_real.c", harness="h_pill_real", plain=True, logctx="CORE",
+  props=["C08", "C04"], contract_files=[], native=True, timeout=300, min_obligations=20, unwind=42)
